@@ -241,6 +241,9 @@ class DefaultTransfer(Transfer):
             tgt_sys, tgt_var = tgt[name_offset:].split('.', 1)
             xfer = (src_sys, src_var, tgt_sys, tgt_var)
             transfers[tgt_sys].append(xfer)
+            if group.comm.size == 1:
+                # the full transfer (key None), used e.g. by NonlinearBlockJac
+                transfers[None].append(xfer)
 
         if group.comm.size > 1:
             # collect all xfers for each tgt system
